@@ -12,7 +12,8 @@
 (*   Timeout  "times out each request after the given duration".           *)
 (*                                                                         *)
 (* G4 What an operator of the server relies on, for EVERY behaviour of the *)
-(*    wrapped handler (returns / panics before or after writing / never    *)
+(*    wrapped handler (returns, with or without writing / panics before or *)
+(*    after writing / never                                                *)
 (*    returns in time / panics late; reads the body or not; body within or *)
 (*    over the limit) and every history of requests on one server value:   *)
 (*    a. NoPanicEscapes: no panic of a handler reaches the caller of the   *)
@@ -41,7 +42,7 @@ MWs == {"Log", "Timeout", "Size", "Recover"}
 Documented == <<"Log", "Timeout", "Size", "Recover">>
 
 (* handler behaviour *)
-Acts == {"ok", "panic", "writepanic", "stall", "stallpanic"}
+Acts == {"ok", "silent", "panic", "writepanic", "stall", "stallpanic"}   \* silent: returns without writing anything
 Statuses == {200, 400, 500}
 Behaviours == [act : Acts, st : Statuses, reads : BOOLEAN]
 Bodies == {"fits", "over"}
@@ -66,8 +67,8 @@ EndRec(st) == [msg |-> "end", status |-> st, level |-> Level(st)]
 (*   logs   : records eventually logged, in order                            *)
 Base(b, limited, body) ==
     [late |-> b.act \in {"stall", "stallpanic"},
-     hdr |-> IF b.act \in {"panic", "stallpanic"} THEN 0 ELSE b.st,
-     src |-> IF b.act \in {"panic", "stallpanic"} THEN "none" ELSE "handler",
+     hdr |-> IF b.act \in {"panic", "stallpanic", "silent"} THEN 0 ELSE b.st,
+     src |-> IF b.act \in {"panic", "stallpanic", "silent"} THEN "none" ELSE "handler",
      panics |-> b.act \in {"panic", "writepanic", "stallpanic"},
      seen |-> IF ~b.reads THEN "none" ELSE IF limited /\ body = "over" THEN "cut" ELSE "all",
      logs |-> <<>>]
